@@ -165,6 +165,9 @@ func (parEngine) generate(property string, seed int64, index int, tier string) *
 		cmds := [][]string{{"print"}, {"print", "--with-totals"}, {"total"}, {"total", "--diff"}, {"json"}, {"json", "--pretty"}, {"tags"}, {"today"},
 			{"report"}, {"report", "--aggregate=week"}, {"track", "1h #x"}, {"start", "--time=9:00"}, {"stop", "--time=23:00"}, {"create", "--date=2024-03-13"}}
 		pc.Cmd = cmds[r.Intn(len(cmds))]
+		if r.Chance(1, 3) {
+			pc.Cmd = genEvalCommand(r) // randomly drawn flags, values and spellings
+		}
 		if pc.Workers > 40 {
 			pc.Workers = r.Range(2, 40)
 		}
@@ -174,7 +177,9 @@ func (parEngine) generate(property string, seed int64, index int, tier string) *
 		if r.Chance(1, 3) {
 			// several input files (more files than CPUs included): read-only commands only
 			pc.NFiles = r.Range(2, 6)
-			pc.Cmd = cmds[r.Intn(10)]
+			if mutatingCmd[pc.Cmd[0]] {
+				pc.Cmd = cmds[r.Intn(10)]
+			}
 			pc.Workers = r.Pick2([]int{2, 2, 3, 4, 8})
 		} else if r.Chance(1, 3) {
 			pc.Via = r.Pick([]string{"stdin", "stdin", "default", "bookmark"})
